@@ -21,7 +21,9 @@ Definition parse_all (ts : list tok) : option cond :=
 
 Inductive case :=
 | CRead (rsv : list string) (bbs : list bbdef) (m : vmodule) (obs : res Circuit)   (* verilog_to_circuit on the rendered text *)
-| CParse (ts : list tok) (obs : option gx).                                       (* raw Lark tree of an expression string *)
+| CParse (ts : list tok) (obs : option gx)                                        (* raw Lark tree of an expression string *)
+| CSelect (name : string) (infer : bool) (rsv : list string) (bbs : list bbdef) (mods : list vmodule) (obs : res Circuit).
+                                                                                  (* text with several modules *)
 
 (* short constructors for case files *)
 Definition Md (n : string) (ports : list string) (items : list item) := {| m_name := n; m_ports := ports; m_items := items |}.
@@ -38,6 +40,7 @@ Definition agree (k : case) : bool :=
       (* every identifier of the AST is a token of the text (precondition of the model's freshness argument) *)
       bool_decide ((list_to_set (module_ids m) : gset string) ⊆ list_to_set rsv) && bool_decide (read (list_to_set rsv) bbs m = obs)
   | CParse ts obs => bool_decide (er_cond <$> parse_all ts = obs)
+  | CSelect name infer rsv bbs mods obs => bool_decide (read_text name infer (list_to_set rsv) bbs mods = obs)
   end.
 
 (* ------------------------------------------------------------------ the specification, on the AST *)
@@ -183,11 +186,19 @@ Definition denotes (bbs : list bbdef) (m : vmodule) (C : Circuit) : bool :=
     (subsets free).
 
 (* ------------------------------------------------------------------ holds: the property on the recorded result *)
+Definition holds_read (bbs : list bbdef) (m : vmodule) (obs : res Circuit) : bool :=
+  if negb (ports_match m) then match obs with Raise _ => true | _ => false end     (* never silently accepted *)
+  else if in_subset bbs m then match obs with Ok C => denotes bbs m C | _ => false end
+  else true.
 Definition holds (k : case) : bool :=
   match k with
-  | CRead rsv bbs m obs =>
-      if negb (ports_match m) then match obs with Raise _ => true | _ => false end     (* never silently accepted *)
-      else if in_subset bbs m then match obs with Ok C => denotes bbs m C | _ => false end
-      else true
+  | CRead rsv bbs m obs => holds_read bbs m obs
   | CParse _ _ => true
+  | CSelect name infer rsv bbs mods obs =>
+      (* the module that is read is the one called `name`, else (inferred name) the first one; otherwise ValueError *)
+      match filter (λ m, m_name m = name) mods, infer, mods with
+      | m :: _, _, _ => holds_read bbs m obs
+      | [], true, m :: _ => holds_read bbs m obs
+      | [], _, _ => bool_decide (obs = Raise ValueError)
+      end
   end.
